@@ -45,12 +45,13 @@ type recPG struct {
 
 func (p *recPG) rec(q string) { p.mu.Lock(); p.sql = append(p.sql, q); p.mu.Unlock() }
 func (p *recPG) CopyFrom(_ context.Context, id pgx.Identifier, cols []string, src pgx.CopyFromSource) (int64, error) {
-	// identifiers handed to COPY are quoted by pgx; the text that reaches the server is recorded
+	// the table and column identifiers of COPY are SQL text too (pgx quotes
+	// them, the property asks for the identifier check all the same)
 	q := make([]string, len(cols))
 	for i, c := range cols {
 		q[i] = pgx.Identifier{c}.Sanitize()
 	}
-	_ = q
+	p.rec("copy " + id.Sanitize() + " (" + strings.Join(q, ", ") + ") from stdin")
 	var n int64
 	for src.Next() {
 		if _, err := src.Values(); err != nil {
@@ -79,6 +80,7 @@ func (boolRow) Scan(dest ...any) error {
 	return nil
 }
 func (p *recPG) QueryRow(_ context.Context, q string, _ ...any) pgx.Row { p.rec(q); return boolRow{} }
+
 type noRows struct{}
 
 func (noRows) Close()                                       {}
@@ -174,7 +176,7 @@ func walk(v reflect.Value, path string, get func(root reflect.Value) reflect.Val
 }
 
 func blocksFor(ev dig.Event) []eth.Block {
-	addrw := append(make([]byte, 12), []byte(marker+"zzzzzzzzzzzz")[:20]...)
+	addrw := append(make([]byte, 12), []byte(marker + "zzzzzzzzzzzz")[:20]...)
 	data := append(append(append(sw32(32), sw32(1)...), sw32(5)...), addrw...)
 	b := eth.Block{Header: eth.Header{Number: 10, Hash: sw32(1)}}
 	tx := eth.Tx{Idx: 0, PrecompHash: sw32(2), To: []byte(marker + "'; drop table x; --")[:20], From: make([]byte, 20)}
